@@ -70,6 +70,9 @@ func builtinNumberToExponential(call FunctionCall) Value {
 	if call.This.IsNaN() {
 		return stringValue("NaN")
 	}
+	if infinity := call.This.float64(); math.IsInf(infinity, 0) {
+		return stringValue(floatToString(infinity, 64))
+	}
 	precision := float64(-1)
 	if value := call.Argument(0); value.IsDefined() {
 		precision = toIntegerFloat(value)
@@ -91,6 +94,9 @@ func builtinNumberToPrecision(call FunctionCall) Value {
 	value := call.Argument(0)
 	if value.IsUndefined() {
 		return stringValue(call.This.string())
+	}
+	if infinity := call.This.float64(); math.IsInf(infinity, 0) {
+		return stringValue(floatToString(infinity, 64))
 	}
 	precision := toIntegerFloat(value)
 	if 1 > precision || 21 < precision {
